@@ -138,6 +138,20 @@ func c07Build(backend, scenario string, idx []int, place []string, variant int, 
 		h.Steps = []eng.Step{
 			{Op: &eng.Op{Kind: "install", ChartID: 1, ValsID: 1, Manifest: append([]eng.Res{base}, twins...)}},
 			{Op: &eng.Op{Kind: "upgrade", Flags: fl, ChartID: 2, ValsID: 1, Manifest: append(append([]eng.Res{base2}, twins...), newRes...), Hooks: hooks}}}
+	case "upgrade-retry":
+		// revision 1 {base} deployed; the upgrade to {base, new...} FAILS in its pre-upgrade hook, before
+		// anything is created (revision 2 failed, naming the new resources); objects appear at the new
+		// keys; the upgrade is retried.  The resources to be created are still those absent from the
+		// DEPLOYED revision (seeded defect C07-5: diffing against the failed revision skips the check).
+		gate := eng.Hook{Res: eng.Res{Kind: "ConfigMap", Name: "gate", Fields: map[string]string{"d:h": "g"}}, Events: []string{"pre-upgrade"}}
+		failing := &eng.Op{Kind: "upgrade", ChartID: 2, ValsID: 1, Manifest: append([]eng.Res{base2}, newRes...), Hooks: []eng.Hook{gate},
+			HFault: &eng.HFault{Name: "gate", Nth: 0}}
+		h.Steps = []eng.Step{
+			{Op: &eng.Op{Kind: "install", ChartID: 1, ValsID: 1, Manifest: []eng.Res{base}}},
+			{Op: failing}}
+		edits()
+		h.Steps = append(h.Steps, eng.Step{Op: &eng.Op{Kind: "upgrade", Flags: fl, ChartID: 3, ValsID: 1,
+			Manifest: append([]eng.Res{base2}, newRes...), Hooks: append([]eng.Hook{gate}, hooks...)}})
 	case "replace":
 		fl.Replace = true
 		h.Steps = []eng.Step{
@@ -170,15 +184,17 @@ func c07GetFault(c c07Case, idx []int, i int) c07Case {
 	return c
 }
 
-var c07Scenarios = []string{"install", "upgrade-add", "replace", "rollback-recreate", "upgrade-add-twin"}
+var c07Scenarios = []string{"install", "upgrade-add", "replace", "rollback-recreate", "upgrade-add-twin", "upgrade-retry"}
 
 func c07Gen(r *rand.Rand) c07Case {
 	k := r.Intn(10)
 	sc := "install"
 	switch {
 	case k < 3:
-	case k < 5:
+	case k < 4:
 		sc = "upgrade-add"
+	case k < 5:
+		sc = "upgrade-retry"
 	case k < 6:
 		sc = "upgrade-add-twin"
 	case k < 8:
@@ -211,6 +227,11 @@ func (*c07) Corpus() []any {
 			out = append(out, c07Build("secret", sc, []int{0, 2}, []string{p, "absent"}, 1+i, false, eng.Flags{}, nil))
 		}
 		out = append(out, c07Build("memory", sc, []int{0, 3}, []string{"foreign", "other-namespace"}, 3, true, eng.Flags{}, nil))
+	}
+	// retried upgrade after a failed one: every placement of the object that appeared, adopting runs too
+	for i, p := range c07Placements {
+		out = append(out, c07Build("memory", "upgrade-retry", []int{0, 2}, []string{p, "absent"}, 1+i, true, eng.Flags{}, nil))
+		out = append(out, c07Build("configmap", "upgrade-retry", []int{1}, []string{p}, 2+i, false, eng.Flags{Atomic: true}, nil))
 	}
 	// the ownership look-up of the pre-existing object is rejected: every placement x
 	// {install, install --atomic, upgrade adding it, same-name upgrade} x take-ownership off/on
@@ -261,7 +282,7 @@ func (*c07) Exhaustive(tier string) []any {
 			return
 		}
 		if len(place) == n-1 {
-			emit(place, c07Scenarios[3:]) // rollback-recreate, upgrade-add-twin
+			emit(place, c07Scenarios[3:]) // rollback-recreate, upgrade-add-twin, upgrade-retry
 		}
 		for _, p := range c07Placements {
 			rec(append(place, p))
